@@ -12,6 +12,7 @@ package main
 import (
 	"fmt"
 	"hash/fnv"
+	"strings"
 	"sync/atomic"
 
 	"verif/mc"
@@ -342,6 +343,12 @@ func checkRead(l *mc.Local, sh shape, sym *az.Symbol, tx text, rot, scale, quiet
 		}
 	}
 	key := fmt.Sprintf("C11/reader/%s/scale=%d", cls, scale)
+	if cls == "notfound" && scale == 2 && positive {
+		// the locating heuristic has a resolution limit at 2 pixels per module (see
+		// known_findings.txt): instances are keyed individually so that a listed instance never hides
+		// another one
+		key = strings.ReplaceAll(fmt.Sprintf("C11/reader/notfound/scale=2/%v/%s/rot%d", sh, tx.Name, rot*90), " ", "_")
+	}
 	if !positive {
 		key = fmt.Sprintf("C11/reader/%s/quiet=%d/scale=%d", cls, quiet, scale)
 	}
